@@ -631,6 +631,28 @@ fn csv_precision(precisions: &[usize]) -> bool {
 #[allow(dead_code)]
 mod fault_divergence;
 
+#[allow(dead_code)]
+mod csv_matrix;
+
+/// C14 (CSV backend): a 2x3 matrix variable is re-read from the CSV file; column `m.i.j` must hold element (i,j).
+fn csv_matrix_driver() -> bool {
+    match std::panic::catch_unwind(|| csv_matrix::csv_non_square_matrix_columns_hold_their_own_elements()) {
+        Ok(Ok(())) => {
+            println!("REPLAY csv_matrix PASS 2x3 matrix variable: every CSV column holds its own element");
+            true
+        }
+        Ok(Err(e)) => {
+            println!("REPLAY csv_matrix FAIL {}", format!("{e:#}").replace('\n', " | "));
+            false
+        }
+        Err(p) => {
+            let msg = p.downcast_ref::<String>().cloned().or_else(|| p.downcast_ref::<&str>().map(|s| s.to_string())).unwrap_or_default();
+            println!("REPLAY csv_matrix FAIL {}", msg.replace('\n', " | "));
+            false
+        }
+    }
+}
+
 fn fault_is_divergence() -> bool {
     let mut ok = true;
     for (name, f) in [("extra_doublings=0", fault_divergence::recoverable_error_is_a_divergence_default_settings as fn()),
@@ -686,6 +708,7 @@ fn main() {
         }
         "chain_unwrap" => chain_unwrap(),
         "fault_is_divergence" => fault_is_divergence(),
+        "csv_matrix" => csv_matrix_driver(),
         "csv_precision" => {
             let ps: Vec<usize> = args[2.min(args.len())..].iter().filter_map(|s| s.parse().ok()).collect();
             csv_precision(if ps.is_empty() { &[6, 65_535, 65_536, 1_000_000] } else { &ps })
